@@ -108,6 +108,17 @@ CLAIMED = {
         note=("trusts CrossHair/z3 and the in-memory store model; <= 1 (quick) / 2 (thorough) names per list; objects "
               "inside containers and load-time type skipping are outside, as the property states"),
         design_ref="DESIGN.md §5 C14"),
+    "C15": dict(
+        engine="S",
+        technique="term-valued symbolic execution of the real NumPy knot-construction / transform_rows / bilinear-splat code on a symbolic scan direction (cos/sin atoms) and symbolic sample coordinates; geometry and unit-weight identities decided by z3 (QF_NRA)",
+        text=("bounded model checking by symbolic execution for every scan angle: pixel (r, c) maps to canvas centre + rotated "
+              "offset for image shapes 3x3, 3x5, 4x2, 5x4, 1-4 knots and pad fractions 0/0.25/0.5 (hence identical coordinates for "
+              "1, 2, 3, 4 knots); the scan vectors are a rotation; the bilinear splat weights of every sample sum to one so the "
+              "weight map sums to the number of pixels"),
+        note=("real arithmetic; interp1d is replaced by the unique interpolating polynomial for n = order+1 knots, gaussian_filter "
+              "by a sum-preserving operator, bincount by a total-preserving scatter-add; the identical-image fixed point of "
+              "align_translation is not decided here (it rests on the registration estimator, C13)"),
+        design_ref="DESIGN.md §5 C15"),
     "C16": dict(
         engine="S",
         technique="term-valued symbolic execution of the real NumPy/torch operator code with unit-modulus phasors expanded into (cos, sin) atoms and exact DFTs of length 1/2/4; energy, additivity, roll, inverse, adjoint, projection identities decided by z3 (QF_NRA)",
